@@ -14,6 +14,8 @@ Reads (python `ast`, closed list of shapes, anything else raises Untranslatable 
       where get_X is a method of a base class whose body is `return self._x` and whose __init__ stores its first argument in
       `self._x`.  A class with a non-trivial is_duplicate must not have subclasses in the table (isinstance would accept them).
 * core/events/handlers.py       trigger: shape TRIGGER_SHAPE below (every synchronous handler shielded on its own)
+* core/events/handlers.py, core/events/__init__.py, every module using core_events.disable/enable
+                                see disable_pairing(): enable/disable only set the flag, every disable() is undone in a finally
 * conf/settings.py              class core: event_queue_size: int = <int>
 * core/sessions.py              SESSION_EXPIRY_FACTOR = <int>;
                                 Session.reset_and_wait as a straight-line program over the statement shapes listed in
@@ -542,6 +544,117 @@ def trigger_shape():
     return True
 
 
+def _flag_names(n):
+    return n.startswith('disabl') or n.startswith('enabl')
+
+
+def disable_pairing():
+    """Event handling is switched off only by core.events.disable() and every call of it is undone by core.events.enable() in
+    a `finally`:
+      core/events/handlers.py   enable / disable = `global _enabled; [logger...]; _enabled = True / False`; nobody else writes
+                                _enabled or calls them there (no context manager around them)
+      core/events/__init__.py   exports exactly disable, enable from .handlers
+      every other module        each `core_events.disable()` is an expression statement of a function body, followed - after
+                                non-awaiting call statements only - by a `try` whose `finally` contains `core_events.enable()`;
+                                no other use of core_events.disable / enable / disabled...
+    -> list of (file, function) where the pairing was found; anything else fails closed."""
+    import os
+    tree = _parse('handlers')
+    for st in tree.body:
+        if isinstance(st, (ast.FunctionDef, ast.AsyncFunctionDef)):
+            writes = [n for n in ast.walk(st) if (isinstance(n, ast.Global) and '_enabled' in n.names)
+                      or (isinstance(n, ast.Name) and n.id == '_enabled' and isinstance(n.ctx, ast.Store))]
+            calls = [n for n in ast.walk(st) if isinstance(n, ast.Call) and isinstance(n.func, ast.Name)
+                     and _flag_names(n.func.id)]
+            if st.name in ('enable', 'disable'):
+                body = [b for b in _body(st) if not _is_logger_call(b)]
+                want = st.name == 'enable'
+                if not (isinstance(st, ast.FunctionDef) and not st.decorator_list and len(body) == 2
+                        and isinstance(body[0], ast.Global) and body[0].names == ['_enabled']
+                        and isinstance(body[1], ast.Assign) and len(body[1].targets) == 1
+                        and _is_name(body[1].targets[0], '_enabled') and isinstance(body[1].value, ast.Constant)
+                        and body[1].value.value is want) or calls:
+                    raise Untranslatable('handlers.%s is not `global _enabled; _enabled = %s`' % (st.name, want))
+            elif writes or calls or _flag_names(st.name):
+                raise Untranslatable('handlers.%s touches the _enabled flag (or wraps disable/enable)' % st.name)
+    with open(repo.path('qtoggleserver/core/events/__init__.py')) as f:
+        init = ast.parse(f.read())
+    exported = sorted(a.asname or a.name for st in init.body if isinstance(st, ast.ImportFrom)
+                      for a in st.names if _flag_names(a.asname or a.name))
+    if exported != ['disable', 'enable']:
+        raise Untranslatable('core.events exports %r, expected disable and enable only' % exported)
+    found = []
+    root = repo.path('qtoggleserver')
+    for d, _dirs, files in os.walk(root):
+        for fn in files:
+            path = os.path.join(d, fn)
+            rel = os.path.relpath(path, repo.REPO)
+            if not fn.endswith('.py') or rel in ('qtoggleserver/core/events/__init__.py', 'qtoggleserver/core/events/handlers.py'):
+                continue
+            with open(path) as f:
+                text = f.read()
+            if 'disabl' not in text and 'enabl' not in text:
+                continue
+            if 'events' not in text:
+                continue
+            mod = ast.parse(text)
+            # names under which the events package / its functions are visible here
+            aliases, direct = set(), set()
+            for n in ast.walk(mod):
+                if isinstance(n, ast.ImportFrom) and n.module and (n.module.endswith('core') or n.module == 'qtoggleserver.core'):
+                    for a in n.names:
+                        if a.name == 'events':
+                            aliases.add(a.asname or a.name)
+                if isinstance(n, ast.ImportFrom) and n.module and n.module.endswith('events') and 'slaves' not in n.module \
+                        and 'frontend' not in n.module:
+                    for a in n.names:
+                        if _flag_names(a.name):
+                            direct.add(a.asname or a.name)
+                if isinstance(n, ast.ImportFrom) and n.module and n.module.endswith('events.handlers'):
+                    raise Untranslatable('%s imports from core.events.handlers directly' % rel)
+            if direct:
+                raise Untranslatable('%s imports %s from core.events by name' % (rel, sorted(direct)))
+            if not aliases:
+                continue
+
+            def is_flag_call(st, which):
+                return (isinstance(st, ast.Expr) and isinstance(st.value, ast.Call) and not st.value.args
+                        and not st.value.keywords and isinstance(st.value.func, ast.Attribute)
+                        and st.value.func.attr == which and isinstance(st.value.func.value, ast.Name)
+                        and st.value.func.value.id in aliases)
+            refs = [n for n in ast.walk(mod) if isinstance(n, ast.Attribute) and _flag_names(n.attr)
+                    and isinstance(n.value, ast.Name) and n.value.id in aliases]
+            paired = 0
+            for fdef in ast.walk(mod):
+                if not isinstance(fdef, (ast.FunctionDef, ast.AsyncFunctionDef)):
+                    continue
+                body = fdef.body
+                for k, st in enumerate(body):
+                    if not is_flag_call(st, 'disable'):
+                        continue
+                    ok = False
+                    for later in body[k + 1:]:
+                        if isinstance(later, ast.Try):
+                            ok = any(is_flag_call(x, 'enable') for x in later.finalbody)
+                            break
+                        if not (isinstance(later, ast.Expr) and isinstance(later.value, ast.Call)
+                                and not any(isinstance(x, (ast.Await, ast.Yield, ast.YieldFrom)) for x in ast.walk(later))):
+                            break
+                    if not ok:
+                        raise Untranslatable('%s:%d %s(): core_events.disable() is not followed by try/finally with '
+                                             'core_events.enable()' % (rel, st.lineno, fdef.name))
+                    paired += 1
+                    found.append('%s:%s' % (rel, fdef.name))
+            if len(refs) != 2 * paired:
+                raise Untranslatable('%s: %d uses of core_events.disable/enable..., %d of them in disable/try/finally-enable pairs'
+                                     % (rel, len(refs), 2 * paired))
+    need = {'qtoggleserver/core/api/funcs/ports.py:put_ports', 'qtoggleserver/slaves/api/funcs/devices.py:put_slave_devices'}
+    if not need <= set(found):
+        raise Untranslatable('restore functions no longer switch event handling off with disable()/finally enable(): found %r'
+                             % sorted(found))
+    return sorted(found)
+
+
 def expiry_factor(tree):
     for st in tree.body:
         if (isinstance(st, ast.Assign) and len(st.targets) == 1 and _is_name(st.targets[0], 'SESSION_EXPIRY_FACTOR')):
@@ -565,6 +678,7 @@ def read_all():
         'reset_prog': reset_program(tree),
         'handler_filter': handler_filter(tree),
         'trigger_shields_each_handler': trigger_shape(),
+        'disable_paired': disable_pairing(),
     }
 
 
@@ -583,6 +697,9 @@ def coq_text(info):
         + '(* core/events/handlers.py:trigger shields every synchronous handler on its own, fire-and-forget handlers run as tasks;\n'
         + '   SessionsEventHandler.FIRE_AND_FORGET = False: the Trigger step reaches the sessions handler whatever the others do *)\n'
         + 'Definition trigger_shields_each_handler : bool := %s.\n' % coq.boolean(info['trigger_shields_each_handler'])
+        + '(* every core_events.disable() is undone by core_events.enable() in a finally: %s;\n' % ', '.join(info['disable_paired'])
+        + '   for the sessions a restore request is Disable ; Enable [; Trigger full-update] *)\n'
+        + 'Definition disable_undone_in_finally : bool := true.\n'
     )
 
 
@@ -597,5 +714,6 @@ def translate(ctx=None):
             'classes': [[r['class'], r['type'], r['required'], r['dup']] for r in info['table']],
             'event_queue_size': info['queue_size'], 'expiry_factor': info['expiry_factor'],
             'reset_and_wait': info['reset_prog'], 'trigger_shields_each_handler': info['trigger_shields_each_handler'],
+            'disable_undone_in_finally': info['disable_paired'],
         },
     }
